@@ -5,7 +5,10 @@ use crate::common::*;
 use serde::{Deserialize, Serialize};
 use std::sync::{Arc, Mutex};
 use text_utils::data::loading::{BufferedIterator, PipelineIterator};
+use text_utils::data::verif::InferenceLoaderDriver;
 use text_utils::data::Pipeline;
+use text_utils::tokenization::{tokenizer, ByteGroups, ByteTokenizerConfig, GroupAggregation, SpecialConfig, TokenizeConfig, TokenizerConfig};
+use text_utils::windows::{windows, WindowConfig};
 use verif_rt::prng::{derive, Rng};
 use verif_rt::rt::{self, Kind};
 use verif_rt::{run_process, ProcSpec, Status};
@@ -20,6 +23,9 @@ pub enum Shape {
     PipePipe(u8),
     /// src.buffered(b).pipe(f, w)
     BufferedPipe(usize),
+    /// the real InferenceLoader through the driver hook (its pipe stage runs the real
+    /// window + tokenize pipeline): (buffer_size, batch_limit, window max chars; 0 = full)
+    Inference(usize, usize, usize),
 }
 
 #[derive(Serialize, Deserialize, Clone, Debug)]
@@ -42,6 +48,36 @@ pub fn f_val(x: u64) -> u64 {
 }
 pub fn g_val(x: u64) -> u64 {
     x.rotate_left(17).wrapping_add(0x1234_5678_9abc_def1)
+}
+
+pub fn inference_text(i: u64) -> String {
+    format!("item {i}: {}", "xyz ".repeat((i % 7) as usize))
+}
+
+fn inference_cfg(max_chars: usize) -> (TokenizerConfig, WindowConfig) {
+    (
+        TokenizerConfig {
+            tokenize: TokenizeConfig::Byte(ByteTokenizerConfig {
+                use_graphemes: true,
+                pad_to_multiple_of: None,
+                groups: ByteGroups::Bytes,
+                aggregation: GroupAggregation::Mean,
+            }),
+            special: SpecialConfig::default(),
+        },
+        if max_chars == 0 { WindowConfig::Full(true) } else { WindowConfig::Character(max_chars, max_chars / 4, true) },
+    )
+}
+
+/// value that identifies (item, window, token ids) of one inference item
+fn inference_val(item: u64, window: u64, ids: &[u32]) -> u64 {
+    let mut h = verif_rt::prng::Fnv::default();
+    h.u64(item);
+    h.u64(window);
+    for t in ids {
+        h.u64(*t as u64);
+    }
+    h.0
 }
 
 pub struct Src {
@@ -113,7 +149,8 @@ impl Scenario for C05 {
         let shape = match rng.below(10) {
             0..=4 => Shape::Pipe,
             5..=6 => Shape::PipeBuffered(rng.usize(0, 4)),
-            7..=8 => Shape::PipePipe(rng.range(0, 4) as u8),
+            7 => Shape::PipePipe(rng.range(0, 4) as u8),
+            8 => Shape::Inference(rng.usize(0, 3), rng.usize(1, 5), *rng.pick(&[0usize, 8, 12, 20])),
             _ => Shape::BufferedPipe(rng.usize(0, 4)),
         };
         let fn_delay = delays(&mut rng, n);
@@ -210,6 +247,27 @@ impl Scenario for C05 {
                 Shape::PipeBuffered(b) => Box::new(src.pipe(f, sc.w).buffered(b)),
                 Shape::PipePipe(w2) => Box::new(src.pipe(f, sc.w).pipe(g, w2)),
                 Shape::BufferedPipe(b) => Box::new(src.buffered(b).pipe(f, sc.w)),
+                Shape::Inference(b, bl, max_chars) => {
+                    let (tok, win) = inference_cfg(max_chars);
+                    let texts = src.map(|i| Ok(inference_text(i)));
+                    let mut drv = InferenceLoaderDriver::new(texts, tok, false, win, sc.w, b, bl, false, 1, false).expect("inference loader");
+                    let mut pending: Vec<u64> = vec![];
+                    Box::new(std::iter::from_fn(move || {
+                        if pending.is_empty() {
+                            match drv.next_batch() {
+                                Ok(Some(batch)) => {
+                                    pending = batch
+                                        .iter()
+                                        .rev()
+                                        .map(|it| inference_val(it.item_idx as u64, it.window_idx as u64, &it.tokenization.token_ids))
+                                        .collect();
+                                }
+                                _ => return None,
+                            }
+                        }
+                        pending.pop()
+                    }))
+                }
             };
             let mut k = 0usize;
             while let Some(v) = it.next() {
@@ -220,7 +278,7 @@ impl Scenario for C05 {
                     rt::sleep_ticks(d as u64);
                 }
                 k += 1;
-                if k > sc.n + 8 {
+                if k > 8 * sc.n + 64 {
                     break; // never-ending stream: the oracle reports it
                 }
             }
@@ -249,6 +307,20 @@ impl Scenario for C05 {
 
 impl C05 {
     fn expected(&self) -> Vec<u64> {
+        if let Shape::Inference(_, _, max_chars) = self.shape {
+            // sequential reference: window and tokenize every text, in order
+            let (tok, win) = inference_cfg(max_chars);
+            let tok = tokenizer(tok).expect("tokenizer");
+            let mut v = vec![];
+            for i in 0..self.n as u64 {
+                let text = inference_text(i);
+                for (w, win) in windows(&text, &win).expect("windows").iter().enumerate() {
+                    let ids = tok.tokenize(win.str, false).expect("tokenize").token_ids;
+                    v.push(inference_val(i, w as u64, &ids));
+                }
+            }
+            return v;
+        }
         (0..self.n as u64)
             .map(|x| match self.shape {
                 Shape::PipePipe(_) => g_val(f_val(x)),
@@ -334,15 +406,16 @@ impl C05 {
                 Kind::Recv => {
                     recvd += 1;
                     let i = e.a as usize;
-                    if i < n && fn_end_step[i] == u64::MAX {
+                    if !matches!(self.shape, Shape::Inference(..)) && i < n && fn_end_step[i] == u64::MAX {
                         return v("order:recv-before-processed", format!("item {i} received before f({i}) finished"));
                     }
                 }
                 _ => {}
             }
         }
+        let counted = !matches!(self.shape, Shape::Inference(..));
         for i in 0..n {
-            if starts[i] != 1 || ends[i] != 1 {
+            if counted && (starts[i] != 1 || ends[i] != 1) {
                 return v("process:not-exactly-once", format!("f({i}) started {} times, finished {} times", starts[i], ends[i]));
             }
             if pulls[i] != 1 {
